@@ -134,6 +134,8 @@ func c12Default(c *Ctx, op string, confs []*rpc.NetConf) string {
 func c12ExecLocal(c *Ctx, op string) string {
 	f := strings.Fields(op)
 	switch f[0] {
+	case "nc.meta":
+		return c12Meta(c, op)
 	case "nc.crd":
 		return c12CRD(c, op, f)
 	case "nc.default":
@@ -327,6 +329,8 @@ func c12Exec(c *Ctx, ops []string) []string {
 func c12Run(c *Ctx) {
 	r := c.R
 	c12CRDRun(c, c.Scale(300, 5000))
+	// local results from interfaces described by the instance metadata at start-up (c12meta.go)
+	c12MetaRun(c, c.Scale(60, 600))
 	var ops []string
 	ifs := []string{"", "eth0", "eth1", "net1", "eth0", "eth2"}
 	for i := 0; i < c.Scale(1500, 30000); i++ {
